@@ -86,6 +86,10 @@ fn view_unch<Hd: SizedPayload, El: SizedPayload>(u: &Unch<Hd, El>) -> View {
 fn view<Hd: SizedPayload, El: SizedPayload>(h: &TH<Hd, El>) -> Option<View> {
     Some(match h {
         TH::Thin(t) => {
+            if t.header.length > 1 << 20 {
+                viol::report(&["C10", "C01"], "T.len-garbage", format!("a ThinArc's recorded length reads {:#x} (freed or corrupted allocation)", t.header.length));
+                return None;
+            }
             let mut v = view_unch::<Hd, El>(&**t);
             v.count = Some(ThinArc::strong_count(t));
             v.heap = Some(t.heap_ptr() as usize);
@@ -204,14 +208,16 @@ enum TOp {
     IntoThinWrong,
     Uniq,
     Move,
+    Compare,
 }
 
 fn tprofile(prop: &str) -> Vec<(TOp, u32)> {
     use TOp::*;
     match prop {
-        "C10" => vec![(Read, 1), (Create, 3), (Clone, 5), (Convert, 7), (Release, 4), (WithArcMut, 6), (IntoThinWrong, 2), (Uniq, 1), (Move, 1)],
+        "C10" => vec![(Read, 1), (Create, 3), (Clone, 5), (Convert, 7), (Release, 4), (WithArcMut, 6), (IntoThinWrong, 2), (Uniq, 1), (Move, 1), (Compare, 1)],
+        "C04" => vec![(Read, 1), (Create, 3), (Clone, 6), (Convert, 6), (Release, 4), (WithArcMut, 3), (IntoThinWrong, 1), (Uniq, 1), (Move, 2), (Compare, 5)],
         "C03" => vec![(Read, 1), (Create, 2), (Clone, 5), (Convert, 4), (Release, 4), (WithArcMut, 3), (IntoThinWrong, 1), (Uniq, 8), (Move, 1)],
-        _ => vec![(Read, 1), (Create, 3), (Clone, 6), (Convert, 7), (Release, 5), (WithArcMut, 3), (IntoThinWrong, 1), (Uniq, 1), (Move, 2)],
+        _ => vec![(Read, 1), (Create, 3), (Clone, 6), (Convert, 7), (Release, 5), (WithArcMut, 3), (IntoThinWrong, 1), (Uniq, 1), (Move, 2), (Compare, 1)],
     }
 }
 
@@ -421,6 +427,7 @@ impl<Hd: SizedPayload, El: SizedPayload> TSt<Hd, El> {
             TOp::WithArcMut => self.op_with_arc_mut(i, op[2], op[3]),
             TOp::IntoThinWrong => self.op_into_thin_wrong(op[2], op[3]),
             TOp::Uniq => self.op_uniq(i, op[2]),
+            TOp::Compare => self.op_compare(i, op[2], op[3]),
             TOp::Move => {
                 let j = pick(op[2], self.slots.len());
                 self.slots.swap(i, j);
@@ -429,9 +436,7 @@ impl<Hd: SizedPayload, El: SizedPayload> TSt<Hd, El> {
                 self.slots[i].h = *b;
             }
         }
-        if !viol::any() {
-            self.check_all();
-        }
+        self.check_all();
     }
 
     fn op_create(&mut self, b: u8, c: u8) {
@@ -764,7 +769,7 @@ impl<Hd: SizedPayload, El: SizedPayload> TSt<Hd, El> {
                     // replaced: ThinArc must now point at the fresh allocation, the old one lost an owner
                     let TH::Thin(t) = &self.slots[i].h else { unreachable!() };
                     if t.heap_ptr() as usize != self.allocs[fa].block.ptr {
-                        viol::report(PT, "T.write-back", format!("with_arc_mut replaced the Arc{} but afterwards the ThinArc points at {:#x} instead of the replacement {:#x}", if which == 3 { " and then panicked" } else { "" }, t.heap_ptr() as usize, self.allocs[fa].block.ptr));
+                        viol::report(&["C10", "C01", "C07"], "T.write-back", format!("with_arc_mut replaced the Arc{} but afterwards the ThinArc points at {:#x} instead of the replacement {:#x}", if which == 3 { " and then panicked" } else { "" }, t.heap_ptr() as usize, self.allocs[fa].block.ptr));
                     }
                     self.slots[i].alloc = fa;
                     self.allocs[fa].kinds.insert(TK::Thin);
@@ -808,6 +813,81 @@ impl<Hd: SizedPayload, El: SizedPayload> TSt<Hd, El> {
                 self.facts.count_in_cb = true;
             }
         }
+    }
+
+    /// comparisons / hashing / formatting of thin and fat handles; counts are observed from inside
+    /// the payload's own impls (count-neutral "not even while the borrow is in use")
+    fn op_compare(&mut self, i: usize, b: u8, c: u8) {
+        let j = pick(c, self.slots.len());
+        let seen = std::cell::Cell::new(false);
+        {
+            let slots = &self.slots;
+            let allocs = &self.allocs;
+            let obs = |what: &'static str| {
+                seen.set(true);
+                for (sj, s) in slots.iter().enumerate() {
+                    let owners = allocs[s.alloc].owners as usize;
+                    let cnt = match &s.h {
+                        TH::Thin(t) => Some(ThinArc::strong_count(t)),
+                        TH::Fat(a) => Some(Arc::count(a)),
+                        TH::Prot(a) => Some(Arc::count(a)),
+                        _ => None,
+                    };
+                    if let Some(cnt) = cnt {
+                        if cnt != owners {
+                            viol::report(PN, "N.count-during-callback", format!("while the payload's {} ran, the count accessor of slot {} ({:?}) reported {} but {} owning handles exist", what, sj, s.h.kind(), cnt, owners));
+                        }
+                    }
+                }
+            };
+            let which = pick(b, 5);
+            tok::with_observer(&obs, || match (&slots[i].h, &slots[j].h) {
+                (TH::Thin(x), TH::Thin(y)) => match which {
+                    0 => {
+                        let _ = lib!(x == y);
+                    }
+                    1 => {
+                        let _ = lib!(x.partial_cmp(y));
+                    }
+                    2 => {
+                        let _ = lib!(x != y);
+                    }
+                    3 => {
+                        let mut h = std::collections::hash_map::DefaultHasher::new();
+                        lib!(std::hash::Hash::hash(x, &mut h));
+                    }
+                    _ => {
+                        let _ = lib!(format!("{:?}", x));
+                    }
+                },
+                (TH::Fat(x), TH::Fat(y)) => match which {
+                    0 | 2 => {
+                        let _ = lib!(x == y);
+                    }
+                    1 => {
+                        let _ = lib!(x.partial_cmp(y));
+                    }
+                    3 => {
+                        let mut h = std::collections::hash_map::DefaultHasher::new();
+                        lib!(std::hash::Hash::hash(x, &mut h));
+                    }
+                    _ => {
+                        let _ = lib!(format!("{:?}", x));
+                    }
+                },
+                (TH::Prot(x), TH::Prot(y)) => {
+                    let _ = lib!(x == y);
+                }
+                (TH::Thin(x), TH::Fat(y)) | (TH::Fat(y), TH::Thin(x)) => {
+                    let _ = lib!(x.with_arc(|a| a == y));
+                }
+                _ => {}
+            });
+        }
+        if seen.get() {
+            self.facts.count_in_cb = true;
+        }
+        self.log(|| format!("compare/hash/format slots {} and {} (variant {})", i, j, b));
     }
 
     fn op_uniq(&mut self, i0: usize, b: u8) {
@@ -893,11 +973,11 @@ impl<Hd: SizedPayload, El: SizedPayload> Engine for ThinEngine<Hd, El> {
         let r = catch_unwind(AssertUnwindSafe(|| {
             for op in &case.ops {
                 st.step(&self.table, *op);
-                if viol::any() {
+                if viol::any_for(self.rule) {
                     break;
                 }
             }
-            if !viol::any() {
+            if !viol::any_for(self.rule) {
                 st.teardown(&case.params);
             }
         }));
